@@ -296,7 +296,7 @@ func init() {
 		return &runner.Spec{
 			Property: "C05", Engine: "kexplore", Level: "model_checking",
 			Jobs:   scenarioJobs("C05", C05Scenarios),
-			Rule:   "every interleaving (incl. both orders inside one SQL batch) of registration requests (callbacks, subscriptions, re-registrations) with every completion path (explicit, lazy time-out by read/create/search, background sweep) of the awaited promise, <=1 fault (2 thorough), <=1 crash, 0-3 existing registrations; distinct = distinct (responses, final database) vectors per scenario",
+			Rule:   "every interleaving (incl. both orders inside one SQL batch) of registration requests (callbacks, subscriptions, re-registrations) with every completion path (explicit, lazy time-out by read/create/search, background sweep) of the awaited promise, <=1 fault (2 thorough), <=1 crash, 0-3 existing registrations; plus registration ids that contain the ':' separator of the derived ids or differ only in what SQL LIKE ignores; distinct = distinct (responses, final database) vectors per scenario",
 			Assume: engineAAssume, QuickS: 150, ThoroughS: 1500,
 		}
 	}
